@@ -18,7 +18,7 @@ func checkC20(c *Ctx) {
 	c.Rule("C20.1", "bar length without wrap: for numerators 1..24 over denominators 1,2,4,8,16,32 the result is num*32/den and no intermediate leaves its integer type whenever the result fits in 255", 6)
 	c.Rule("C20.2", "bars end to end: start(0)=0, start(k+1)=start(k)+len(k)*ticks32, song end = final sum", 1)
 	c.Rule("C20.3", "event placement: on = bar.start + ticks32*pos; off = on + ticks32*duration; a note-off is emitted iff the message is a note start with non-zero duration, on the same channel and key", 3)
-	c.Rule("C20.4", "closing delta: in both exports every track is closed with songEnd - lastTickOfThatTrack", 2)
+	c.Rule("C20.4", "deltas: in both exports every track is closed with songEnd - lastTickOfThatTrack, and event deltas are differences of consecutive ticks of a sequence sorted by tick", 4)
 	c.Rule("C20.5", "time-signature default: the 4/4 default of bar insertion and of the bar-line pass are the same constant", 1)
 	c.Rule("C20.6", "single- and multi-track export obtain bar-line and bar events from the same two producers with the same resolution argument", 1)
 
@@ -329,6 +329,67 @@ func checkC20(c *Ctx) {
 			}
 		}
 		c.Check(ok && n > 0, "C20.4", "closing delta in "+FuncName(ex), p.Pos(ex.Pos()), fmt.Sprintf("%d Close calls: songEnd - (tick of the last event added to that track)", n), why)
+	}
+	// ---- C20.4b deltas are differences of consecutive ticks of a tick-ordered sequence
+	addM := p.MethodOf(types.NewPointer(trackT), "Add")
+	for _, ex := range []*ssa.Function{toSMF0, toSMF1} {
+		n := 0
+		ok := true
+		why := ""
+		for _, call := range calls(ex) {
+			if call.Common().StaticCallee() != addM || len(call.Common().Args) < 2 {
+				continue
+			}
+			arg := call.Common().Args[1]
+			if cv, isC := arg.(*ssa.Convert); isC {
+				arg = cv.X
+			}
+			sub, isSub := arg.(*ssa.BinOp)
+			if !isSub || sub.Op != token.SUB {
+				continue // constant 0 or a delta prepared by the bar-line producer
+			}
+			l, isL := sub.X.(*ssa.UnOp)
+			if !isL || fieldVar(l.X) == nil || fieldVar(l.X).Name() != "AbsTicks" {
+				continue
+			}
+			n++
+			// the sequence the event is taken from
+			var seq ssa.Value
+			if fa, okf := l.X.(*ssa.FieldAddr); okf {
+				switch e := fa.X.(type) {
+				case *ssa.UnOp: // *(&S[i])
+					if ia, oki := e.X.(*ssa.IndexAddr); oki {
+						seq = ia.X
+					}
+				case *ssa.Extract: // range over S
+					if nx, okn := e.Tuple.(*ssa.Next); okn {
+						if rg, okr := nx.Iter.(*ssa.Range); okr {
+							seq = rg.X
+						}
+					}
+				}
+			}
+			if seq == nil {
+				ok = false
+				why = "cannot identify the sequence the deltas are taken over"
+				continue
+			}
+			sorted := false
+			for _, sc := range calls(ex) {
+				q := calleeQual(sc)
+				if q != "sort.Sort" && q != "sort.Stable" && q != "sort.Slice" && q != "sort.SliceStable" {
+					continue
+				}
+				if len(sc.Common().Args) > 0 && strip(sc.Common().Args[0]) == seq && instrDominates(sc.(ssa.Instruction), call.(ssa.Instruction)) {
+					sorted = true
+				}
+			}
+			if !sorted {
+				ok = false
+				why = "a delta is computed as the difference of consecutive absolute ticks of a sequence that is not sorted by tick first (a note-off that crosses a bar line precedes earlier events of the next bar: the difference goes negative and wraps)"
+			}
+		}
+		c.Check(ok && n > 0, "C20.4", "deltas over a tick-ordered sequence in "+FuncName(ex), p.Pos(ex.Pos()), fmt.Sprintf("%d delta computation(s), each over a sequence sorted by tick beforehand", n), why)
 	}
 	// ---- C20.5 defaults
 	{
